@@ -479,24 +479,7 @@ func runC19(r *Runner, g *Gen, tier string) string {
 		}
 		r.Do(L(items...), k > 2, "internseq")
 	}
-	// a large table (beyond any small-table fast path), then a race on new and old values
-	for k := 0; k < scale(tier, 6, 200); k++ {
-		var big []*Sexp
-		for v := 0; v < 70+k; v++ {
-			big = append(big, A(hx([]byte(fmt.Sprintf("value-%03d", v)))))
-		}
-		t1 := []*Sexp{A(hx([]byte("value-001"))), A(hx([]byte("fresh-a"))), A(hx([]byte("value-069"))), A(hx([]byte("fresh-b")))}
-		var sch []*Sexp
-		for q := 0; q < 4*(70+k)+8+k; q++ {
-			sch = append(sch, A("0"))
-		}
-		for q := 0; q < 40; q++ {
-			sch = append(sch, A(fmt.Sprint(q%2)))
-		}
-		lop := L(A("internsched"), L(A("reqs"), L(append(big, A(hx([]byte("fresh-b"))), A(hx([]byte("fresh-c"))))...), L(t1...)), L(sch...))
-		r.Do(lop, true, "internsched.large")
-		r.Do(makeInternTraceOp(lop), true, "interntrace.large")
-	}
+	internLargeOps(r, scale(tier, 6, 200))
 	// concurrent: 2-3 goroutines share one interned field; deterministic schedules over the intern yield points
 	m := scale(tier, 600, 40000)
 	for i := 0; i < m; i++ {
@@ -528,6 +511,29 @@ func runC19(r *Runner, g *Gen, tier string) string {
 		r.Do(makeInternTraceOp(sop), true, "interntrace")
 	}
 	return "histories of 1-10 decodes through one freshly built interned string field (string and null.String): new, repeated, empty, prefix-sharing and binary inputs, the caller's buffer overwritten after every call and all results re-read at the end; compared with the model: the decoded strings and the sharing structure (which results are the same allocation); oracle: each result equals the input bytes (= what the plain codec returns)"
+}
+
+
+// internLargeOps: a table grown beyond any small-table fast path by one goroutine,
+// then two goroutines racing on new and old values.
+func internLargeOps(r *Runner, count int) {
+	for k := 0; k < count; k++ {
+		var big []*Sexp
+		for v := 0; v < 70+k; v++ {
+			big = append(big, A(hx([]byte(fmt.Sprintf("value-%03d", v)))))
+		}
+		t1 := []*Sexp{A(hx([]byte("value-001"))), A(hx([]byte("fresh-a"))), A(hx([]byte("value-069"))), A(hx([]byte("fresh-b")))}
+		var sch []*Sexp
+		for q := 0; q < 4*(70+k)+8+k; q++ {
+			sch = append(sch, A("0"))
+		}
+		for q := 0; q < 40; q++ {
+			sch = append(sch, A(fmt.Sprint(q%2)))
+		}
+		lop := L(A("internsched"), L(A("reqs"), L(append(big, A(hx([]byte("fresh-b"))), A(hx([]byte("fresh-c"))))...), L(t1...)), L(sch...))
+		r.Do(lop, true, "internsched.large")
+		r.Do(makeInternTraceOp(lop), true, "interntrace.large")
+	}
 }
 
 // every goroutine must get exactly its inputs back, whatever the interleaving
